@@ -18,7 +18,7 @@ CASES = {
     "control (plain expression, for comparison)": ("one\n${'\\d'}\n", 2),
 }
 bad = []
-d = tempfile.mkdtemp(dir="/tmp/hunt_c12_out/tmp")
+d = tempfile.mkdtemp()
 try:
     for path in ("string", "module_directory"):
         for name, (src, line) in CASES.items():
